@@ -115,6 +115,21 @@ func rawCorpus(seed int64) [][]byte {
 			out = append(out, append([]byte(nil), fb...))
 		}
 	}
+	// ttheader frames whose info sections end at every distance (0..3 padding bytes) from the end of the header, with
+	// one and two entries: counts that announce more than is there then run into / exactly up to the end
+	for n := 0; n <= 12; n++ {
+		v := string(PatBytes(40+n, 0, n))
+		for _, p := range []ttheader.EncodeParam{
+			{SeqID: 1, IntInfo: map[uint16]string{1: v}},
+			{SeqID: 1, IntInfo: map[uint16]string{1: v, 2: "x"}},
+			{SeqID: 1, StrInfo: map[string]string{"k": v}},
+			{SeqID: 1, StrInfo: map[string]string{ttheader.GDPRToken: v}},
+		} {
+			if fb, err := ttheader.EncodeToBytes(context.Background(), p); err == nil {
+				out = append(out, append([]byte(nil), fb...))
+			}
+		}
+	}
 	return out
 }
 
@@ -189,6 +204,32 @@ func rawMutSweep(c *Ctx) {
 				m[p] = v
 				if !check(m) {
 					return
+				}
+			}
+			// relative mutations: a count / length / size that is slightly larger or smaller than the truth
+			for _, d := range []int{1, 2, 3, 4, -1, -2} {
+				m := append([]byte(nil), enc...)
+				m[p] = byte(int(m[p]) + d)
+				if !check(m) {
+					return
+				}
+				if p+2 <= len(enc) {
+					m2 := append([]byte(nil), enc...)
+					x := int(m2[p])<<8 | int(m2[p+1])
+					x += d
+					m2[p], m2[p+1] = byte(x>>8), byte(x)
+					if !check(m2) {
+						return
+					}
+				}
+				if p+4 <= len(enc) {
+					m4 := append([]byte(nil), enc...)
+					x := uint32(m4[p])<<24 | uint32(m4[p+1])<<16 | uint32(m4[p+2])<<8 | uint32(m4[p+3])
+					x += uint32(int32(d))
+					m4[p], m4[p+1], m4[p+2], m4[p+3] = byte(x>>24), byte(x>>16), byte(x>>8), byte(x)
+					if !check(m4) {
+						return
+					}
 				}
 			}
 		}
